@@ -46,6 +46,13 @@ def file_one(rnd, it):
             "confirm_cmd": "tools/confirm_seed.py <worktree> /verif/seeded/%s <crate named in the demo's head comment>" % fid,
             "ran": "tools/par_seeds.py --checks-from-meta --update %s   (patch applied in a private worktree of /repo; ./check <id> --tier quick in a private copy of /verif)" % fid,
             "round": rnd, "checks_run": it["checks"], "caught_by": [], "how": {}}
+    old = os.path.join(d, "meta.json")
+    if os.path.exists(old):
+        # re-confirmation of a change that is already filed: keep what the checks found
+        o = json.load(open(old))
+        for k in ("caught_by", "how", "caught_at_first", "check_strengthened", "checks_run"):
+            if k in o:
+                meta[k] = o[k]
     json.dump(meta, open(os.path.join(d, "meta.json"), "w"), indent=1, ensure_ascii=False)
     ok = all(v for k, v in conf.items() if k not in ("demo_failure_excerpt", "crate"))
     print("%s confirm=%s %s" % (fid, "ok" if ok else "FAILED", {k: v for k, v in conf.items() if k not in ("demo_failure_excerpt",)}), flush=True)
@@ -55,8 +62,14 @@ def file_one(rnd, it):
 def main():
     rnd = int(sys.argv[1])
     spec = json.load(open(sys.argv[2]))
-    with ThreadPoolExecutor(max_workers=5) as ex:
-        ids = list(ex.map(lambda it: file_one(rnd, it), spec))
+    # the two changes of one property share that property's scratch worktree: one thread per PROPERTY
+    groups = {}
+    for it in spec:
+        groups.setdefault(it["prop"], []).append(it)
+    with ThreadPoolExecutor(max_workers=6) as ex:
+        ids = [i for g in ex.map(lambda its: [file_one(rnd, it) for it in its], groups.values()) for i in g]
+    if "--confirm-only" in sys.argv:
+        return
     os.execvp("python3", ["python3", os.path.join(V, "tools", "par_seeds.py"), "-j", "5", "--checks-from-meta", "--update"] + ids)
 
 
